@@ -338,7 +338,7 @@ class Gen:
         return len(self.m.regs) - 1
 
     SCENARIOS = ["diamond", "captured", "chain", "sites", "zipmap", "nestedzip", "sharedlit", "matrix",
-                 "ntupleidx", "objkeys", "zipsizes", "arraynewmix", "samelit", "failedcompile", "triangle", "kwcall", "closureloop", "litfold"]
+                 "ntupleidx", "objkeys", "zipsizes", "arraynewmix", "samelit", "failedcompile", "triangle", "kwcall", "closureloop", "litfold", "paramzip", "objorder"]
 
     def scenario(self, k=None):
         rng = self.rng
@@ -523,6 +523,15 @@ class Gen:
             self.do({"op": "arrayOf", "r": b, "size": rng.choice([2, 3])})
             self.do({"op": "arrayNew", "xs": [a2, self.last()]})
             self.do({"op": "arrayNew", "xs": [a2, a2, a2]})
+            good = self.last()
+            # mixes whose odd element sits at every position of a longer list (pairs, thirds, the last one)
+            pub, sec = self.new_input("PublicInteger"), self.new_input("SecretInteger")
+            made = []
+            for pattern in rng.sample(["ppS", "ppSS", "ppppS", "pSp", "Spp", "pS", "pppS"], 4):
+                self.do({"op": "arrayNew", "xs": [pub if ch == "p" else sec for ch in pattern]})
+                if self.m.regs[self.last()] is not DEAD:
+                    made.append(self.last())
+            self.compile_now(prefer=(made + [good])[:4])
             return None
         if k == "samelit":
             # one value written at several literal types (and twice at one type), each kept from folding by a
@@ -604,6 +613,49 @@ class Gen:
                     self.do({"op": "arrayOf", "r": x, "size": 3})
                     self.do({"op": "map", "a": self.last(), "f": top})
                 self.compile_now(prefer=[self.last()])
+            return None
+        if k == "objorder":
+            # objects whose fields are not written in alphabetical order, members of different classes, read back by key
+            keys = rng.sample(["price", "amount", "fee", "zeta", "alpha", "mid"], rng.choice([2, 3, 4]))
+            if keys == sorted(keys):
+                keys.reverse()
+            fs = [[kk, self.new_input(rng.choice(PUBSEC))] for kk in keys]
+            self.do({"op": "objectNew", "fs": fs})
+            o = self.last()
+            got = []
+            for kk in keys:
+                self.do({"op": "objectGet", "o": o, "key": kk})
+                got.append(self.last())
+            self.compile_now(prefer=[o] + got[:3])
+            return None
+        if k == "paramzip":
+            # an Array-typed function parameter (no size of its own) combined with a captured array of a concrete size:
+            # zip / inner_product of different sizes must be rejected inside function bodies too
+            Ti = rng.choice(["SecretInteger", "PublicInteger", "SecretUnsignedInteger"])
+            w = self.new_input(Ti)
+            self.do({"op": "arrayOf", "r": w, "size": 3})
+            weights = self.last()
+            r0 = self.new_input(Ti)
+            self.do({"op": "arrayOf", "r": r0, "size": 2})
+            row1 = self.last()
+            fresh = self.new_input(Ti)
+
+            def body(ps, weights=weights, fresh=fresh):
+                for opn in rng.sample(["zip", "innerProduct", "zip"], 2):
+                    self.do({"op": opn, "a": ps[0], "b": weights} if rng.random() < 0.5 else {"op": opn, "a": weights, "b": ps[0]})
+                self.do({"op": "innerProduct", "a": ps[0], "b": ps[0]})
+                ip = self.last()
+                if self.m.regs[ip] is DEAD:
+                    return fresh
+                return ip
+            ret = "Secret" + Ti.replace("Public", "").replace("Secret", "") if Ti.startswith("Secret") else Ti
+            self.define_fn(anns=[["Array", Ti]], ret=ret, plan=body)
+            f = self.last()
+            if describe(self.m.regs[f])[0] != "fn":
+                return None
+            self.do({"op": "arrayNew", "xs": [row1, row1]})
+            self.do({"op": "map", "a": self.last(), "f": f})
+            self.compile_now(prefer=[self.last()])
             return None
         if k == "litfold":
             # literal-only sub-expressions (every foldable operator; mixed signs, magnitudes beyond 2**53 / 2**64 / the
